@@ -75,7 +75,8 @@ CLAIMS = {
             "DESIGN.md §4 C06"),
     "C19": ("Theorems C19_rep_bounds (reference interpreter: exactly the greedy run of consecutive units, MIN <= count <= MAX, cursor at "
             "the end of the last matched unit, failure only below MIN), C19_rep_bounds_impl / C19_rep_fails_impl (real parse path, via "
-            "C05), C19_array; witness C19_refuted_before_fix. Tie: bounds family (all MIN, MAX incl. MIN > MAX) with the reference "
+            "C05), C19_array, C19_pair, C19_opt, C19_skip_chars (real parse and check path on valid UTF-8: exactly the first N characters or "
+            "failure), C19_atomic_rep (+ C19_atomic_rep_silent: no tracker events), C19_real_path; witness C19_refuted_before_fix. Tie: bounds family (all MIN, MAX incl. MIN > MAX) with the reference "
             "interpreter and an independent counting oracle.", "DESIGN.md §4 C19"),
     "C08": ("Tie: every catalogue shape x every Span(s,a,b) / Position(s,a) sub-input vs the fresh slice shifted by a (verdicts, offsets, "
             "trees, stack, tracker, tokens), model vs code on all three cursor forms; byte-level model of the three cursors incl. the "
@@ -110,7 +111,12 @@ CLAIMS = {
             "rules re-run at the reported location).",
             "DESIGN.md §4 C10, §10"),
     "C15": ("Theorems C15_preorder / C15_levelorder / C15_render / C15_thin for every rose tree (loops = recursive specs, fuel bound "
-            "proved); tie: real iterators.rs on all tree shapes up to the tier's node bound + random trees.", "DESIGN.md §4 C15"),
+            "proved); C15_nesting / C15_entry_nesting / C15_rule_token / C15_siblings_ordered / C15_nested_everywhere: for EVERY "
+            "successful run of the real parse path (any expression, environment, input, no hypothesis) the token tree the Pair API "
+            "exposes is well nested (children inside their parent's span) and siblings are in input order and disjoint; a non-silent "
+            "rule is one token spanning exactly what it consumed. Ties: real iterators.rs on all tree shapes up to the tier's node "
+            "bound + random trees; the thin-token tree of every rule of the misc / uni catalogue families (all rule kinds, bounded and "
+            "unbounded repetitions with non-silent skipped tokens) vs Model/Tokens.v.", "DESIGN.md §4 C15, §10"),
 }
 
 checks = []
